@@ -287,6 +287,34 @@ def render_wsdl(ss):
     return "\n".join(out) + "\n"
 
 
+def _xsd_as_default(text, prefixes, wsdl_too):
+    """The same document with XML Schema as the default namespace of every schema element that does not declare a default
+    namespace of its own (<schema xmlns="…XMLSchema">, type="string"), and optionally the WSDL namespace as the default
+    namespace of the definitions. Pure re-spelling: the infoset (names, namespaces, QName values) is unchanged."""
+    import re
+
+    def schema_block(m):
+        block = m.group(0)
+        x = m.group(1)
+        head = block[: block.index(">")]
+        if ' xmlns="' in head:
+            return block
+        if f' xmlns:{x}="{XSD_NS}"' in head:
+            block = block.replace(f' xmlns:{x}="{XSD_NS}"', f' xmlns="{XSD_NS}"', 1)
+        else:
+            # the prefix was declared further out (on the definitions): the default namespace is declared here
+            block = block.replace(f"<{x}:schema", f'<{x}:schema xmlns="{XSD_NS}"', 1)
+        block = block.replace(f"<{x}:", "<").replace(f"</{x}:", "</")
+        return re.sub(r'((?:type|base)=")%s:' % re.escape(x), r"\1", block)
+
+    for x in sorted(prefixes):
+        text = re.sub(r"<(%s):schema\b.*?</%s:schema>" % (re.escape(x), re.escape(x)), schema_block, text, flags=re.S)
+    if wsdl_too and "<wsdl:definitions" in text:
+        text = text.replace(f'<wsdl:definitions xmlns:wsdl="{WSDL_NS}"', f'<definitions xmlns="{WSDL_NS}"', 1)
+        text = text.replace("<wsdl:", "<").replace("</wsdl:", "</")
+    return text
+
+
 def render_set(ss):
     """{filename: text}"""
     files = {}
@@ -297,4 +325,7 @@ def render_set(ss):
             continue            # rendered inside the WSDL's <types>
         else:
             files[f.filename] = render_xsd(f, ss.files)
+    if getattr(ss, "xsd_as_default", False):
+        prefixes = {f.xs_prefix for f in ss.files}
+        files = {n: _xsd_as_default(t, prefixes, getattr(ss, "wsdl_as_default", False)) for n, t in files.items()}
     return files
